@@ -1420,7 +1420,7 @@ const char* rtosc_skip_next_printed_arg(const char* src, int* skipped,
                 rtosc_arg_val_t llhsarg, lhsarg, rhsarg;
                 char lhstype = deltaless_range_type ? deltaless_range_type
                                                     : *type,
-                     llhstype, rhstype[2] = "x";
+                     llhstype = 0, rhstype[2] = "x";
 
                 *type = '-'; // TODO: bug? return scanned type instead,
                              //       to avoid [0.1 1 ...5]
@@ -1481,11 +1481,19 @@ const char* rtosc_skip_next_printed_arg(const char* src, int* skipped,
                 bool llhsarg_is_useless = false;
                 if(llhssrc)
                 {
-                    const char* next_ellipsis_from_llhssrc =
-                            strstr(llhssrc, "...");
-                    if(next_ellipsis_from_llhssrc < ellipsis)
+                    // is llhs itself a range "a ... b"? then take "b"
+                    // (a mere search for "..." would also find it inside
+                    //  of strings or of "(...+0x1p-1s)")
+                    const char* after_llhs =
+                        rtosc_skip_next_printed_arg(llhssrc, &llhsskipped,
+                                                    NULL, NULL, 0,
+                                                    inside_bundle);
+                    if(after_llhs)
+                        while(isspace(*after_llhs)) ++after_llhs;
+                    if(after_llhs && after_llhs < ellipsis &&
+                       !strncmp(after_llhs, "...", 3))
                     {
-                        llhssrc = next_ellipsis_from_llhssrc + 2;
+                        llhssrc = after_llhs + 2;
                         while(isspace(*++llhssrc)) ;
                     }
                     else if(is_range_multiplier(llhssrc))
